@@ -170,16 +170,37 @@ structure Tbl where
   /-- `gen_seed_timeseries` reuses the stored series only if it covers exactly the current first
   and last day (true), or already when its length matches (false: the unrepaired rule) -/
   tsExact : Bool
+  /-- `hash_file` feeds the whole file to the hasher (loop until EOF / unbounded read); false: a
+  single bounded read, i.e. only a first block -/
+  hashWholeFile : Bool
+  /-- some key is removed (`pop`, `del`, ...) from the virtual-world / program dictionary between
+  parameter intake and `hash_dict` -/
+  vwKeysRemoved : Bool
+  progKeysRemoved : Bool
   /-- harness convention, not extracted: the simulated period (first day, number of days) written in
   content number `v` of the virtual-world dictionary (the dates are part of that dictionary) -/
   periodOf : Nat → Nat × Nat
+
+/-- the *hashed view* of content number `v` of input `k`: what the hasher gets to see.  A content
+number is read as `2 * (part inside the view) + (part outside)`: a hash of a first block only does
+not see the rest of a file, a dictionary hash does not see a key removed before hashing.  md5 is
+modelled as injective on this view. -/
+def Tbl.view (t : Tbl) (k : Input) (v : Nat) : Nat :=
+  match k with
+  | .vw => if t.vwKeysRemoved then v / 2 else v
+  | .prog => if t.progKeysRemoved then v / 2 else v
+  | _ => if t.hashWholeFile then v else v / 2
+
+def Tbl.viewVV (t : Tbl) (vv : VV) : VV :=
+  ⟨t.view .site vv.site, t.view .siteType vv.siteType, t.view .equip vv.equip, t.view .source vv.source,
+   t.view .emisRate vv.emisRate, t.view .repairDelay vv.repairDelay, t.view .vw vv.vw, t.view .prog vv.prog⟩
 
 def storeOf (hashed : List (String × Input)) (vv : VV) : Store :=
   hashed.map fun p => (p.1, vv.get p.2)
 
 /-- `hashes_match`: every compared key of the stored dictionary equals the current hash -/
 def hashesMatch (t : Tbl) (st : Store) (vv : VV) : Bool :=
-  t.compared.all fun p => st.lookup p.1 == some (vv.get p.2)
+  t.compared.all fun p => st.lookup p.1 == some ((t.viewVV vv).get p.2)
 
 /-- `for i in range(lo, lo + cnt)`: one emission file per simulation, generated by `g` -/
 def emisLoop (g : Gen) : (lo cnt : Nat) → List Step
@@ -211,7 +232,7 @@ def seedsStage (n : Nat) (d : Disk) : Option (List Step × Bool) :=
 def infraStage (t : Tbl) (vv : VV) (gid : Nat) (force : Bool) (d : Disk) :
     Option (List Step × Gen × Bool) :=
   if force ∨ ¬ (t.required.all d.present) then
-    some (instIOps t.freshOps (storeOf t.hashedFresh vv) ⟨vv, gid⟩ d, ⟨vv, gid⟩, false)
+    some (instIOps t.freshOps (storeOf t.hashedFresh (t.viewVV vv)) ⟨vv, gid⟩ d, ⟨vv, gid⟩, false)
   else
     match d.hashes with
     | .ok st =>
@@ -220,7 +241,7 @@ def infraStage (t : Tbl) (vv : VV) (gid : Nat) (force : Bool) (d : Disk) :
         | .ok g => some ([], g, true)
         | _ => none
       else
-        some (instIOps t.regenOps (storeOf t.hashedRegen vv) ⟨vv, gid⟩ d, ⟨vv, gid⟩, false)
+        some (instIOps t.regenOps (storeOf t.hashedRegen (t.viewVV vv)) ⟨vv, gid⟩ d, ⟨vv, gid⟩, false)
     | _ => none
 
 /-- `initialize_emissions` (without the seed time series) -/
